@@ -15,10 +15,13 @@ from vf.props import c03 as _c03
 ID = "C04"
 LEVEL = "model_checking"
 RULE = ("the C03 enumeration (single nodes with every operand in turn bound to an initializer-that-is-also-an-input "
-        "and two override values, pairs, rule pairs, shape triples, templates, lifted corpus); a leaf is non-trivial "
+        "and two override values, pairs, rule pairs, shape triples, templates, lifted corpus, wrapped_folded / single_cform / "
+        "regpair_old families: see C03); a leaf is non-trivial "
         "when the optimizer API was called on a checker-valid model that executes and its result was validated "
         "(checker full_check + independent scope walker + interface diff + override runs)")
 ASSUMPTIONS = ["onnx.checker.check_model(full_check=True) (onnx 1.22) and vf.wf decide validity",
+               "'executes' (precondition of totality) = onnxruntime runs the model; onnx.reference is not required for it "
+               "(it lacks sparse constants and some ops), it is required for every value comparison",
                "an override value is used only when ORT and onnx.reference agree on the ORIGINAL with that override",
                "shape refinements of declared outputs (symbolic -> static) are counted, and alarmed on only when the "
                "refined static dim contradicts the runtime shape"]
@@ -111,7 +114,14 @@ def _execute(item):
     for v in rec.get("c04", []):
         kind = v["kind"]
         if kind == "raises":
-            key = f"C04|raises|{api}|{v['param']}"
+            key_api = api
+            if (api != "optimize" or item.get("entry", "proto") != "proto") and item.get("fam") != "corpus":
+                # canonical API of the key: the same exception class out of optimize(ModelProto) => one root cause
+                it2 = dict(item, api="optimize", entry="proto")
+                _, r2 = optplan.run_item(it2)
+                if any(x["kind"] == "raises" and x["param"] == v["param"] for x in r2.get("c04", [])):
+                    key_api = "optimize"
+            key = f"C04|raises|{key_api}|{v['param']}"
         else:
             b_use, item_use = built, item
             if kind in ("invalid", "interface", "declared-shape-wrong") and ("steps" in item):
@@ -140,12 +150,14 @@ def _execute(item):
                 key = f"C04|override|{comp}|{role.split('.')[0]}"   # consumer op of the overridable operand
             elif kind == "default-lost":
                 key = f"C04|default-lost|{comp}|{v['param']}"
-            elif optplan.root_cause_tag(item_use, comp, dsig):
-                key = f"C04|{kind}|{comp if str(comp).startswith('rule:') else 'fold'}|{optplan.root_cause_tag(item_use, comp, dsig)}"
+            elif optplan.root_cause_tag(item_use, comp, dsig, v.get("param")):
+                key = (f"C04|{kind}|{comp if str(comp).startswith('rule:') else 'fold'}|"
+                       f"{optplan.root_cause_tag(item_use, comp, dsig, v.get('param'))}")
             else:
                 key = f"C04|{kind}|{comp}|{dsig}|{v['param']}"
-                extra = [x for x in optplan.nondefault_params(item_use, set()) if x.startswith(("x=", "wrap=", "opset="))]
-                if extra and not optplan.root_cause_tag(item_use, comp, dsig):
+                extra = [x for x in optplan.nondefault_params(item_use, set())
+                         if x.startswith(("x=", "wrap=", "opset=", "cform=", "outs="))]
+                if extra:
                     key += "|" + ",".join(extra)
         if key in seen:
             continue
